@@ -148,7 +148,10 @@ inductive Entry where
 /-- which nodata the file gets: `write_cog`: `nodata = extra_rio_opts.pop("nodata", None); if nodata is None: nodata =
 geo_im.attrs.get("nodata")`; `write_cog_layers`: `_default_cog_opts(nodata=pix.attrs.get("nodata"))` then
 `rio_opts.update(extra_rio_opts)`, and the temp images get `rio_opts.get("nodata")`.  Either way: an explicit keyword
-wins (a keyword of `None` is "not given"), else the attribute of the (first) image, else no nodata. -/
+wins (a keyword of `None` is "not given"), else the attribute of the (first) image, else no nodata.
+(`kw = none` stands for "keyword absent".  A keyword spelled out as `nodata=None` is the same on the direct path; on the
+supplied-overviews path the code on HEAD lets it override the attribute — modelled dictionary by dictionary in
+`Model/C15Glue.lean`, see `explicit_none_overrides_attrs_cex` / known finding K28, repaired on branch fix2-C15.) -/
 def resolveNodata (_e : Entry) (kw attrs : Option Num) : Option Num :=
   match kw with
   | some v => some v
